@@ -147,6 +147,26 @@ Theorem C13_remove_stage_on_reachable_states : forall w now sender id w',
   (forall st a, (st < k)%nat -> mem_get (w_mem w') st a = mem_get (w_mem w) st a).
 Proof. exact remove_stage_reachable. Qed.
 
+(* ---- stage identity: add_stage only appends (its window starts no earlier than every
+        existing stage ends) and every existing stage keeps its position, data and members;
+        no accepted operation ever moves a stage or its members to another position ---- *)
+Theorem C13_add_stage_only_appends : forall w now sender s ms w',
+  step w now (AddStage sender s ms) = Ok w' ->
+  w_stages w' = w_stages w ++ [s] /\
+  (forall si, In si (w_stages w) -> s_end si <= s_start s) /\
+  (forall i, (i < length (w_stages w))%nat ->
+     nth_error (w_stages w') i = nth_error (w_stages w) i /\
+     forall a, mem_get (w_mem w') i a = mem_get (w_mem w) i a).
+Proof. exact add_stage_appends. Qed.
+
+Theorem C13_stage_identity_is_stable : forall w now o w', step w now o = Ok w' ->
+  forall i, (i < length (w_stages w))%nat -> (i < length (w_stages w'))%nat ->
+  (match o with UpdateStage _ id _ _ _ _ _ _ => i <> N.to_nat id | _ => True end ->
+     nth_error (w_stages w') i = nth_error (w_stages w) i) /\
+  (match o with AddMembers _ id _ | RemoveMembers _ id _ => i <> N.to_nat id | _ => True end ->
+     forall a, mem_get (w_mem w') i a = mem_get (w_mem w) i a).
+Proof. exact stage_identity_stable. Qed.
+
 (* ---- what the other operations leave alone ---- *)
 Theorem C13_update_changes_one_stage_only :
   forall w now sender id name start end_ price pal mcl w',
@@ -234,6 +254,15 @@ Example C13_note_update_has_no_clock_guard :
   is_ok (step (step_total w3 (T + 5) (RemoveStage 1 2)) (T + 10) (AddStage 1 (mkStage 7 (T + 30) (T + 40) 0 1 1 None) [])) = false.
 Proof. vm_compute. repeat split; reflexivity. Qed.
 
+(* an add_stage whose window lies before an existing stage (still in the future) is refused,
+   as is one between two stages; after the last one it is accepted *)
+Example C13_ex_add_stage_must_append :
+  let w1 := step_total w3 (T + 5) (RemoveStage 1 2) in
+  is_ok (step w1 (T + 1) (AddStage 1 (mkStage 7 (T + 3) (T + 8) 0 1 1 None) [(120, 1)])) = false /\
+  is_ok (step w1 (T + 1) (AddStage 1 (mkStage 7 (T + 15) (T + 25) 0 1 1 None) [(120, 1)])) = false /\
+  is_ok (step w1 (T + 1) (AddStage 1 (mkStage 7 (T + 30) (T + 35) 0 1 1 None) [(120, 1)])) = true.
+Proof. vm_compute. repeat split; reflexivity. Qed.
+
 Print Assumptions C13_stages_wellformed_after_any_history.
 Print Assumptions C13_every_operation_preserves_wellformedness.
 Print Assumptions C13_created_with_one_to_three_stages_first_in_future.
@@ -247,6 +276,8 @@ Print Assumptions C13_merkle_has_member_consults_active_root.
 Print Assumptions C13_flex_member_limit_from_active_stage.
 Print Assumptions C13_no_active_stage_no_member.
 Print Assumptions C13_remove_stage.
+Print Assumptions C13_add_stage_only_appends.
+Print Assumptions C13_stage_identity_is_stable.
 Print Assumptions C13_remove_stage_on_reachable_states.
 Print Assumptions C13_update_changes_one_stage_only.
 Print Assumptions C13_member_edits_are_stage_scoped.
